@@ -211,7 +211,7 @@ def check(run):
             continue  # construction: the cache object is created here, nothing can predate it
         all_keys = set(fps) | set(sp)
         done = check_surgery(run, ef, f, cls if f.cls is not None else None, owner, hashed_data, rhs_kind, footprint, all_keys,
-                             INVARIANCE, companions, _translation_only_ok, "C01", transport_ok=TRANSPORT)
+                             INVARIANCE, companions, (lambda f_, k_, d_, kind_: _translation_only_ok(f_, k_, d_, kind_, ix)), "C01", transport_ok=TRANSPORT)
         if done:
             n_surgery += 1
     run.floor("Trimesh-family surgery functions", n_surgery, 4)
@@ -265,90 +265,112 @@ def check(run):
     }
 
 
-def _translation_only_ok(f, k, d, kind):
+_TG_CACHE = {}
+
+
+def _transport_facts(ix, f):
+    """apply_transform, name-free (value graph, sa/dag.py): for each kind of normals the store that transports them, its value
+    node and the value nodes of the tests that enclose it"""
+    key = (id(ix), f.qualname)
+    if key in _TG_CACHE:
+        return _TG_CACHE[key]
+    from ..dag import Values
+    V = Values(ix, f)
+    out = {"V": V, "stores": {}}
+    for st in ast.walk(f.node):
+        if isinstance(st, ast.Assign) and isinstance(st.targets[0], ast.Subscript) and isinstance(st.targets[0].slice, ast.Constant) \
+                and st.targets[0].slice.value in ("face_normals", "vertex_normals") and ast.unparse(st.targets[0].value) in ("self._cache.cache", "self._cache"):
+            guards = [(V.value(i.test, i), pos, i) for i, pos in V.pv.enclosing_tests(st)]
+            out["stores"].setdefault(st.targets[0].slice.value, []).append((st, V.value(st.value, st), guards))
+    _TG_CACHE[key] = out
+    return out
+
+
+def _is_rotation_test(V, node, k):
+    """`<not allclose(M[:3, :3], I)> and '<k>' in self._cache` in either order"""
+    for t in (f"_e_ROT and '{k}' in P_self._cache", f"'{k}' in P_self._cache and _e_ROT", f"_e_ROT and '{k}' in P_self._cache.cache", f"'{k}' in P_self._cache.cache and _e_ROT"):
+        e = V.match(t, node)
+        if e is not None:
+            for ident in ("_IDENTITY3", "numpy.eye(3)"):
+                for tol in ("atol=_k_t, ", ""):
+                    if V.match(f"not trimesh.util.allclose(a=P_matrix[:3, :3], {tol}b={ident})", e["_e_ROT"]) is not None \
+                            or V.match(f"not numpy.allclose(P_matrix[:3, :3], {ident}{', atol=_k_t' if tol else ''})", e["_e_ROT"]) is not None:
+                        return True
+    return False
+
+
+def _is_conformal_test(V, node):
+    """every alternative of the flag other than the constant True (the value it has when there is no rotation and nothing is
+    transported) contains allclose(L L^T / s, I) with L the linear part of the matrix"""
+    n = V.dag.node(node) if isinstance(node, (ast.Name, str)) else node
+    alts = list(n.args) if isinstance(n, ast.Call) and isinstance(n.func, ast.Name) and n.func.id == "PHI" else [node]
+    seen = False
+    for a in alts:
+        an = V.dag.node(a) if isinstance(a, ast.Name) else a
+        if isinstance(an, ast.Constant) and an.value is True:
+            continue
+        hits = []
+        for ident in ("_IDENTITY3", "numpy.eye(3)"):
+            hits += V.dag.find(f"trimesh.util.allclose(a=numpy.dot(_e_L, _e_L.T) / _e_S, atol=_k_t, b={ident})", a)
+            hits += V.dag.find(f"trimesh.util.allclose(a=numpy.dot(_e_L, _e_L.T) / _e_S, b={ident})", a)
+        if not any(V.match("P_matrix[:3, :3]", h[0]["_e_L"]) is not None for h in hits):
+            return False
+        seen = True
+    return seen
+
+
+def _translation_only_ok(f, k, d, kind, ix=None):
     """face/vertex normals may be carried unchanged across a vertex transform on the paths where the transport store is
     skipped, provided that store exists and is guarded by `<rot> and "<k>" in self._cache` with <rot> := not allclose(M[:3,:3], I)"""
-    if not (k in ("face_normals", "vertex_normals") and d == "vertices" and kind == "transform"):
+    if not (k in ("face_normals", "vertex_normals") and d == "vertices" and kind == "transform") or ix is None:
         return False
-    for st in ast.walk(f.node):
-        if isinstance(st, ast.If) and isinstance(st.test, ast.BoolOp) and isinstance(st.test.op, ast.And) and len(st.test.values) == 2:
-            a, b = st.test.values
-            if isinstance(a, ast.Name) and isinstance(b, ast.Compare) and isinstance(b.ops[0], ast.In) \
-                    and isinstance(b.left, ast.Constant) and b.left.value == k and ast.unparse(b.comparators[0]) in ("self._cache", "self._cache.cache"):
-                stores = [s for s in ast.walk(st) if isinstance(s, ast.Assign) and isinstance(s.targets[0], ast.Subscript)
-                          and ast.unparse(s.targets[0].value) in ("self._cache.cache", "self._cache")
-                          and isinstance(s.targets[0].slice, ast.Constant) and s.targets[0].slice.value == k]
-                if not stores:
-                    continue
-                # definition of the rotation flag
-                for d_ in ast.walk(f.node):
-                    if isinstance(d_, ast.Assign) and isinstance(d_.targets[0], ast.Name) and d_.targets[0].id == a.id:
-                        t = ast.unparse(d_.value).replace(" ", "")
-                        if t.startswith("notutil.allclose(matrix[:3,:3],_IDENTITY3") or t.startswith("notnp.allclose(matrix[:3,:3],"):
-                            return True
-    return False
+    facts = _transport_facts(ix, f)
+    V = facts["V"]
+    return any(any(pos and _is_rotation_test(V, g, k) for g, pos, _ in guards) for _, _, guards in facts["stores"].get(k, []))
 
 
 def _transport_guard(run, ix):
     f = ix.func("trimesh.base:Trimesh.apply_transform")
-    parents = {}
-    for n in ast.walk(f.node):
-        for c in ast.iter_child_nodes(n):
-            parents[id(c)] = n
-
-    def enclosing_ifs(node):
-        out = []
-        cur = node
-        while id(cur) in parents:
-            p = parents[id(cur)]
-            if isinstance(p, ast.If) and any(cur is x for x in p.body):
-                out.append(p)
-            cur = p
-        return out
-
-    # a conformality flag: `<C> = True` then, under the rotation test, `<C> = ... allclose(<gram>/scale, I)` with gram = L L^T
-    flags = set()
-    for st in ast.walk(f.node):
-        if isinstance(st, ast.Assign) and isinstance(st.targets[0], ast.Name):
-            txt = ast.unparse(st.value).replace(" ", "")
-            if "allclose(" in txt and st.targets[0].id not in ("has_rotation",):
-                # the compared quantity must be derived from L . L^T
-                srcs = [ast.unparse(a.value).replace(" ", "") for a in ast.walk(f.node)
-                        if isinstance(a, ast.Assign) and isinstance(a.targets[0], ast.Name) and a.targets[0].id in txt]
-                if any("np.dot(matrix[:3,:3],matrix[:3,:3].T)" in x for x in srcs) or "np.dot(matrix[:3,:3],matrix[:3,:3].T)" in txt:
-                    flags.add(st.targets[0].id)
+    facts = _transport_facts(ix, f)
+    V = facts["V"]
     for k in ("face_normals", "vertex_normals"):
-        ok = _translation_only_ok(f, k, "vertices", "transform")
+        ok = _translation_only_ok(f, k, "vertices", "transform", ix)
         run.instance("R5", f.where, f"`{k}` transport store present and guarded by rotation flag + presence in cache", ok)
         if not ok:
             run.violation("R5", f.where,
                           f"apply_transform keeps `{k}` across the vertex write but does not itself re-assign it under "
                           f"`has_rotation and '{k}' in self._cache`", key=key_of("C01-R5", k))
         # the stored value must be computed from the old normals and the same matrix, without translation
-        for st in ast.walk(f.node):
-            if isinstance(st, ast.Assign) and isinstance(st.targets[0], ast.Subscript) and isinstance(st.targets[0].slice, ast.Constant) \
-                    and st.targets[0].slice.value == k and "_cache" in ast.unparse(st.targets[0].value):
-                txt = ast.unparse(st.value).replace(" ", "")
-                ok2 = f"transform_points(self.{k},matrix=matrix,translate=False)" in txt and txt.startswith("util.unitize(")
-                run.instance("R5", f.where, f"`{k}` transported as unitize(M_linear . old normals)", ok2)
-                if not ok2:
-                    run.violation("R5", f.where, f"`{k}` is re-assigned from `{ast.unparse(st.value)[:80]}`: not the old normals mapped by the "
-                                                 f"linear part of the same matrix", key=key_of("C01-R5", k, "formula"))
-                # variance: mapping a normal by the linear part itself is only right for angle-preserving matrices
-                guards = [g for g in enclosing_ifs(st) if isinstance(g.test, ast.Name) and g.test.id in flags]
-                ok3 = bool(guards)
-                run.instance("R5", f.where, f"`{k}` transport happens only under a conformality flag ({sorted(flags)})", ok3)
-                if not ok3:
-                    run.violation("R5", f.where,
-                                  f"`{k}` is mapped by the matrix' linear part with no guard that the matrix preserves angles "
-                                  f"(L L^T proportional to I): under non-uniform scale or shear the kept normals are wrong",
-                                  key=key_of("C01-R5", k, "variance"))
-    # every literal naming the normals that can reach `exclude=` must sit under the same flag
+        for st, val, guards in facts["stores"].get(k, []):
+            ok2 = V.match(f"trimesh.util.unitize(vectors=trimesh.transformations.transform_points(matrix=P_matrix, points=P_self.{k}, translate=False))", val) is not None
+            run.instance("R5", f.where, f"`{k}` transported as unitize(M_linear . old normals)", ok2)
+            if not ok2:
+                run.violation("R5", f.where, f"`{k}` is re-assigned from `{V.text(val, 4, 90)}`: not the old normals mapped by the "
+                                             f"linear part of the same matrix", key=key_of("C01-R5", k, "formula"))
+            # variance: mapping a normal by the linear part itself is only right for angle-preserving matrices
+            ok3 = any(pos and _is_conformal_test(V, g) for g, pos, _ in guards)
+            run.instance("R5", f.where, f"`{k}` transport happens only under a conformality test (L L^T / s == I)", ok3)
+            if not ok3:
+                run.violation("R5", f.where,
+                              f"`{k}` is mapped by the matrix' linear part with no guard that the matrix preserves angles "
+                              f"(L L^T proportional to I): under non-uniform scale or shear the kept normals are wrong",
+                              key=key_of("C01-R5", k, "variance"))
+    # every value naming the normals that can reach `exclude=` must be bound under the same test
+    m = f.module
+
+    def names_normals(e):
+        if isinstance(e, (ast.Set, ast.List, ast.Tuple)):
+            return any(isinstance(x, ast.Constant) and x.value in ("face_normals", "vertex_normals") for x in e.elts)
+        if isinstance(e, ast.Call) and isinstance(e.func, ast.Name) and e.func.id in ("set", "frozenset", "list", "tuple") and len(e.args) == 1:
+            return names_normals(e.args[0])
+        if isinstance(e, ast.Name) and e.id in m.constants and len(m.constants[e.id]) == 1:
+            return names_normals(m.constants[e.id][0].value)
+        return False
+
     for st in ast.walk(f.node):
-        if isinstance(st, (ast.Set, ast.List, ast.Tuple)) and any(isinstance(e, ast.Constant) and e.value in ("face_normals", "vertex_normals") for e in st.elts):
-            guards = [g for g in enclosing_ifs(st) if isinstance(g.test, ast.Name) and g.test.id in flags]
-            ok = bool(guards)
-            run.instance("R5", f.where, "the keep-set naming the normals is built only under the conformality flag", ok)
+        if isinstance(st, ast.Assign) and names_normals(st.value):
+            ok = any(pos and _is_conformal_test(V, V.value(i.test, i)) for i, pos in V.pv.enclosing_tests(st))
+            run.instance("R5", f.where, "the keep-set naming the normals is built only under the conformality test", ok)
             if not ok:
                 run.violation("R5", f.where,
                               "normals are put in the set of keys kept across the transform on a path that has not established that the "
